@@ -42,6 +42,7 @@ def axes(tier, seed):
                        shape_in_beams=SHAPES_T[1:] if q else SHAPES_T),
                 B=dict(docov=[True, False], amplitude=[1e-2, 1.0, 1e2], cdelt_arcsec=[3, 10, 30], beam_px=BEAMS_B,
                        pa=[-75.0, -45.0, 30.0, 90.0] if q else PAS_T, phase=PHASES_T[:2]),
+                E=dict(projection=["SIN", "TAN", "ARC"], shape=[(50, 90), (90, 50)], crpix=["centre", "140 px off the image"], corner=[0, 1, 2, 3], sign=[1, -1]),
                 D=dict(projection=["SIN", "ZEA"], shape_in_beams=[(1.0, 1.0), (1.2, 1.0), (1.5, 1.0)], exact_phase=[(0.5, 0.5), (0.5, 0.0), (0.0, 0.5), (0.25, 0.75)],
                        snr=[100, 1000, 10000], docov=[False, True]),
                 C=dict(realisations=8 if q else 24, modes=["white+nocov", "correlated+cov"], rms=["forced", "BANE cores=1", "BANE cores=2"],
@@ -58,6 +59,9 @@ def cases(tier, seed):
     for docov, amp, cd, beam, pa, p in itertools.product([True, False], [1e-2, 1.0, 1e2], [3.0, 10.0, 30.0], BEAMS_B,
                                                        [-75.0, -45.0, 30.0, 90.0] if q else PAS_T, range(2)):
         yield "B", dict(docov=docov, amp=amp, cdelt=cd, beam=list(beam), pa=pa, phase=list(PHASES_T[p]))
+    # E: sources close to the image corners (wholly inside), non-square images, reference pixel on / far off the image, both signs
+    for proj, shape, crp, corner, sign in itertools.product(["SIN", "TAN", "ARC"], [(50, 90), (90, 50)], ["centre", "off"], range(4), [1.0, -1.0]):
+        yield "E", dict(proj=proj, shape=list(shape), crpix=crp, corner=corner, sign=sign)
     # D: peaks exactly between pixels (no seed shift) at high signal-to-noise, beam-sized and slightly larger sources
     for proj, shp, ph, snr, docov in itertools.product(["SIN", "ZEA"], [(1.0, 1.0), (1.2, 1.0), (1.5, 1.0)], [(0.5, 0.5), (0.5, 0.0), (0.0, 0.5), (0.25, 0.75)],
                                                      [100.0, 1000.0, 1e4], [False, True]):
@@ -151,6 +155,31 @@ def ev_B(case, ctx):
     ctx.nontrivial(sig)
     try:
         out = run_finder(f, rms=0.01 * case["amp"], docov=case["docov"])
+    except Exception as e:
+        ctx.violation("finder raised %r (%s)" % (e, sig), "raise|" + sig)
+        return
+    compare_noisefree(out, src, hdr, beam, ctx, sig, sig)
+
+
+def ev_E(case, ctx):
+    d = os.environ["VERIF_SCRATCH"]
+    cd = 10.0 / 3600
+    shape = tuple(case["shape"])
+    rows, cols = shape
+    beam_px = (4.0, 3.0, 20.0)
+    beam = (beam_px[0] * cd, beam_px[1] * cd, beam_px[2])
+    crpix = None if case["crpix"] == "centre" else (cols + 140.5, -75.25)
+    hdr = wz.make_header(case["proj"], (311.0 + core.seed_shift(ctx.seed, 23, 5), 57.0), cd, shape, beam=beam, crpix=crpix)
+    m = 11.0     # the 4-sigma footprint of a 6 x 3.6 pixel source is ~7 pixels: wholly inside
+    r, c = [(m + 0.3, m + 0.6), (m + 0.7, cols - 1 - m - 0.2), (rows - 1 - m - 0.4, m + 0.1), (rows - 1 - m - 0.8, cols - 1 - m - 0.5)][case["corner"]]
+    src = skygauss.source_at_pixel(hdr, r, c, case["sign"], 6.0, 3.6, -25.0 + 40.0 * case["corner"])
+    f = os.path.join(d, "c01e.fits")
+    scenes.write_image(f, hdr, skygauss.render(hdr, shape, [src]))
+    sig = "E:%s,shape=%r,crpix=%s,corner=%d,sign=%+g" % (case["proj"], case["shape"], case["crpix"], case["corner"], case["sign"])
+    ctx.count("E")
+    ctx.nontrivial(sig)
+    try:
+        out = run_finder(f, rms=0.01, docov=(case["corner"] % 2 == 0), nonegative=False)
     except Exception as e:
         ctx.violation("finder raised %r (%s)" % (e, sig), "raise|" + sig)
         return
@@ -274,4 +303,4 @@ def ev_C(case, ctx):
 
 
 def evaluate(clause, case, ctx):
-    dict(A=ev_A, B=ev_B, C=ev_C, D=ev_D)[clause](case, ctx)
+    dict(A=ev_A, B=ev_B, C=ev_C, D=ev_D, E=ev_E)[clause](case, ctx)
